@@ -240,8 +240,46 @@ def matcher_family(name, seed=1):
     r = {'name': name, 'tlc': m, 'summary': s, 'findings': read_ndjson(out), 'obs': None}
     log(f'[replay] MC_Matcher/{name}: {s["records"]} behaviours, {s["counters"].get("executions", 0)} executions, '
         f'{s["findings"]} deviations')
+    if MATCHER_FAMILIES[name].get('events'):
+        _matcher_binding_selftest(m['out'], wd)
     _family_cache[name] = r
     return r
+
+
+def _matcher_binding_selftest(tlc_out, wd):
+    """The exact replay must bind: one behaviour whose recorded apportionment is moved from one lot to another (the sum
+    is kept, so conservation still holds) has to be reported as `apportionment_differs`; otherwise nothing this family
+    says can be trusted (tool error)."""
+    pre = '<<"REPLAY", "'
+    with open(tlc_out, errors='replace') as f:
+        for line in f:
+            if not line.startswith(pre):
+                continue
+            rec = json.loads(line.rstrip('\n')[len(pre):-len('">>')].replace('\\"', '"').replace('\\\\', '\\'))
+            if rec['status'] != 'ok':
+                continue
+            d = rec['dist'][0]
+            hit = [(e, a) for e in range(len(d)) for a in range(len(d[e])) if d[e][a][0] != 0]
+            rows = {e for e, a in hit}
+            pick = next(((e, [a for ee, a in hit if ee == e]) for e in rows if len([1 for ee, a in hit if ee == e]) >= 2), None)
+            if not pick:
+                continue
+            e, cols = pick
+            a, b = cols[0], cols[1]
+            (n1, d1), (n2, d2) = d[e][a], d[e][b]
+            # move one unit (1/1) from lot a to lot b
+            d[e][a] = [n1 * 1 + d1, d1] if d1 else [n1, d1]
+            d[e][b] = [n2 * 1 - d2, d2] if d2 else [n2, d2]
+            p = os.path.join(wd, 'selftest.txt')
+            open(p, 'w').write(pre + json.dumps(rec).replace('\\', '\\\\').replace('"', '\\"') + '">>\n')
+            o = os.path.join(wd, 'selftest.ndjson')
+            harness('replay_cgt', ['--in', p, '--out', o, '--bases', '1', '--variants', 'none'])
+            kinds = {f['kind'] for f in read_ndjson(o)}
+            if 'apportionment_differs' not in kinds:
+                raise common.ToolError(f'exact replay does not bind: a moved apportionment was accepted (kinds reported: {sorted(kinds)})')
+            log('[selftest] MC_Matcher exact replay: an apportionment moved between two lots is rejected (apportionment_differs)')
+            return
+    log('[selftest] MC_Matcher exact replay: no behaviour with a two-lot apportionment to perturb')
 
 
 def combine(fams, nontrivial_key, rule, exhaustive=True, assumptions=None):
